@@ -59,7 +59,7 @@ def job(args):
         win = w
         if p == 1 and w is not None:
             win = w[0] if wkind == "per-state" else np.asarray(w).ravel()
-        case = {"model": name, "loss": kind, "state_name": cols, "theta": theta, "grid": tgrid, "t0": t0, "weights": wkind,
+        case = {"cfg": list(cfg), "model": name, "loss": kind, "state_name": cols, "theta": theta, "grid": tgrid, "t0": t0, "weights": wkind,
                 "target_param": tp, "entry": entry, "method": meth, "full_output": fo}
         sig = {"entry": entry, "loss": kind, "nstates": p, "order": "model" if cols == [s for s in states if s in cols] else "permuted",
                "weights": wkind, "target_param": None if tp is None else ("model-order" if tp == [q for q in params if q in tp] else "permuted"),
